@@ -27,7 +27,7 @@ inductive FeeCase
   | skip                       -- `return` (same side, or the crossing has no in-range part)
   | full                       -- both closes inside: `calc_amounts(DECIMAL_1)`
   | part (num den : Int)       -- crossing: `Decimal(in_range_delta) / Decimal(price_delta)`
-  | nanError                   -- `last_tick` is nan and the close is outside: NaN comparison raises
+  | nanError                   -- `last_tick` is nan and the close is outside: `int(nan)` raises ValueError
 deriving DecidableEq, Repr
 
 def feeCase (last : Option Int) (close lower upper : Int) : FeeCase :=
@@ -60,7 +60,7 @@ def updateFee (cx : NumCtx) (pool : Pool) (last : Option Int) (row : Row) (p : P
   match feeCase last row.closeTick p.lower p.upper with
   | .skip => .ok p
   | .full => calcAmounts cx pool row p 1
-  | .nanError => .error .invalidOp
+  | .nanError => .error .value
   | .part n d =>
     let w := cx.div (n : Rat) (d : Rat)
     if w > 1 then .error .runtime else calcAmounts cx pool row p w
